@@ -116,6 +116,30 @@ CHECKS = {
          "reader and compared with the reader model; every malformation of a TRXC response and TRXD datagrams of critical lengths are "
          "fed to trx_if.c, where a sanitizer report or a non-orderly state (vs TrxconIf) is a violation.",
     note="trusted: TLC, ASan/UBSan for C memory safety (uninitialised reads are not detected), faketrx_drv.py, drv_trxcon.c; integers beyond 32 bit only checked for 'returns normally, one reply, touches only its parameters'"),
+ "C07": dict(
+    level="model_checking", design="5 (C07)",
+    technique="TLA+ spec HoppingStd written from the text of 3GPP TS 45.002 6.2.3 (MAI_Std) and the mask form (MAI_Mask); TLC checks their equivalence exhaustively and generates the expected table; Python HoppingParams.resolve and the firmware's unmodified rfch.c are compared with it",
+    text="TLC proves MAI_Std = MAI_Mask for all N 1..64, M 0..152, T3 0..50 and the T1R reduction, and exports the expectation computed from "
+         "the standard's text; both implementations are run over every N, every (N, M', T') class incl. the M'+T' overflow arm, HSN 0, "
+         "FN 0 and 2715647 (quick) and the complete reduced domain (HSN xor T1R) x T2 x T3 x N with all MAIO for N <= 8 (thorough); "
+         "a sample of records is judged by TLC directly (HopTrace).",
+    note="trusted: TLC, drv_rfch.c + firmware include shims, drv_gsm_shared.py; MAIO enters only through the final (S + MAIO) mod N (argued, sampled for N > 8)"),
+ "C08": dict(
+    level="model_checking", design="5 (C08)",
+    technique="TLA+ spec TdmaSched (ring of buckets, exchange sort, set walk, gsmtime events) model-checked with TLC without run-length bound; traces of the unmodified tdma_sched.c / sched_gsmtime.c (ASan/UBSan) validated against TdmaTrace; TLC-simulated behaviours replayed",
+    text="TLC explores the scheduler exhaustively for small depth/capacity (finite state space by VIEW, action properties on every "
+         "transition) and checks RunsWhenDue, ExactlyOnce, ParamsPreserved, PriorityOrder, SetSpread, BucketEmptyAfter, "
+         "OverflowReported; random and TLC-simulated histories run through the real C code with real D=25, K=8 and every callback / "
+         "return code is validated against the same spec with the clauses evaluated on the observed history.",
+    note="trusted: TLC, drv_tdma.c + firmware include shim; order among equal priorities, offsets >= 25 and scheduling into the frame being executed are outside the statement"),
+ "C19": dict(
+    level="model_checking", design="5 (C19)",
+    technique="TLA+ spec GsmTime (decomposition, recomposition, incremental carry logic of l1s_time_inc) model-checked by TLC over the whole hyperframe; the sliced l1s_time_inc, in-repo gsm_fn2gsmtime/gsm_gsmtime2fn and Python fn2gsm_time validated against it",
+    text="TLC walks every frame number of the hyperframe (thorough: 2 715 648 states, Inc1 and a delta set; quick: all 63 deltas around the "
+         "wrap) checking components = Decomp(fn) and Recomp(Decomp(fn)) = fn; the real C functions (l1s_time_inc sliced from the working "
+         "tree, libosmocore gsm_utils.c) and the Python helper are stepped through FN windows (thorough: every FN) and each record is "
+         "judged by TLC against the spec.",
+    note="trusted: TLC, the function slicer, drv_gsmtime.c; the full product hyperframe x 63 deltas is not enumerated by TLC (stated in evidence)"),
 }
 
 NOT_YET = {}
